@@ -58,7 +58,11 @@ def parse_outcome(text):
 
 
 REWRITES = ['space', 'tab', 'comment', 'break_in_brackets', 'crlf', 'semicolon_for_newline', 'newline_for_semicolon',
-            'blank_newline', 'blank_semicolon', 'leading_newline', 'trailing_newline', 'comment_line', 'spaces_around_all']
+            'blank_newline', 'blank_semicolon', 'leading_newline', 'trailing_newline', 'comment_line', 'spaces_around_all',
+            'trailing_comma', 'parens_literal', 'parens_name', 'dot_to_pipe']
+OPERAND_BEFORE = {'PLUS', 'MINUS', 'TIMES', 'DIVIDE', 'POWER', 'EQ', 'NE', 'GT', 'LT', 'GTE', 'LTE', 'AND', 'OR', 'IN', 'NOT', 'LPAREN',
+                  'LBRACKET', 'COMMA', 'ASSIGN', 'SHORT_OP', 'COLON', 'IF', 'ELSE', 'NEWLINE', 'LAMBDA', 'LBRACE', None}
+OPERAND_AFTER_BAD = {'LPAREN', 'LAMBDA', 'ASSIGN', 'SHORT_OP'}
 
 
 def rewrite(text, kind, pos):
@@ -124,6 +128,63 @@ def rewrite(text, kind, pos):
             return None
         b = seps[pos]
         return text[:b] + ('\n' if kind == 'blank_newline' else ' ; ') + text[b:]
+    if kind == 'trailing_comma':
+        # before the closer of a non-empty call (NAME directly before the opener) or list literal
+        stack, spots = [], []
+        for n, t in enumerate(toks):
+            if t[0] in ('LPAREN', 'LBRACKET', 'LBRACE'):
+                prev = toks[n - 1][0] if n else None
+                is_call = t[0] == 'LPAREN' and prev == 'NAME' and (n < 2 or toks[n - 2][0] not in ())
+                is_list = t[0] == 'LBRACKET' and prev in OPERAND_BEFORE
+                stack.append((t[0], is_call or is_list, n))
+            elif t[0] in ('RPAREN', 'RBRACKET', 'RBRACE') and stack:
+                op, ok, start = stack.pop()
+                nonempty = n - start > 1
+                # a call whose parenthesis is followed by => is a lambda parameter list, not a call
+                is_lambda = n + 1 < len(toks) and toks[n + 1][0] == 'LAMBDA'
+                if ok and nonempty and not is_lambda and toks[n - 1][0] != 'COMMA':
+                    spots.append(t[2])
+        if pos >= len(spots):
+            return None
+        b = spots[pos]
+        return text[:b] + ', ' + text[b:]
+    if kind in ('parens_literal', 'parens_name'):
+        spots = []
+        for n, t in enumerate(toks):
+            prev = toks[n - 1][0] if n else None
+            nxt = toks[n + 1][0] if n + 1 < len(toks) else None
+            if prev in ('DOT', 'PIPE', 'DEL'):
+                continue
+            if kind == 'parens_literal' and t[0] in ('NUMBER', 'STRING', 'TRUE', 'FALSE', 'NONE'):
+                spots.append((t[2], t[3]))
+            if kind == 'parens_name' and t[0] == 'NAME' and prev in OPERAND_BEFORE and nxt not in OPERAND_AFTER_BAD:
+                # not a lambda parameter inside ( .. ) =>, not an assignment target at the start of a statement
+                if prev == 'NEWLINE' or prev is None:
+                    continue
+                j = n
+                depth, lam = 0, False
+                for m in range(n + 1, len(toks)):
+                    if toks[m][0] in ('LPAREN', 'LBRACKET', 'LBRACE'):
+                        depth += 1
+                    elif toks[m][0] in ('RPAREN', 'RBRACKET', 'RBRACE'):
+                        depth -= 1
+                        if depth < 0:
+                            lam = m + 1 < len(toks) and toks[m + 1][0] == 'LAMBDA' and toks[m][0] == 'RPAREN'
+                            break
+                if lam:
+                    continue
+                spots.append((t[2], t[3]))
+        if pos >= len(spots):
+            return None
+        a, b = spots[pos]
+        return text[:a] + '(' + text[a:b] + ')' + text[b:]
+    if kind == 'dot_to_pipe':
+        spots = [t for n, t in enumerate(toks) if t[0] == 'DOT' and n + 3 < len(toks) and toks[n + 1][0] == 'NAME'
+                 and toks[n + 2][0] == 'LPAREN' and toks[n + 3][0] != 'RPAREN']
+        if pos >= len(spots):
+            return None
+        t = spots[pos]
+        return text[:t[2]] + ' | ' + text[t[3]:]
     if kind == 'leading_newline':
         return ('\n' + text) if pos == 0 else ((';' + text) if pos == 1 else None)
     if kind == 'trailing_newline':
@@ -133,12 +194,12 @@ def rewrite(text, kind, pos):
 
 def layout_rewrite(ri: int, pos: int) -> None:
     """
-    pre: 0 <= ri < 13 and 0 <= pos < 40
+    pre: 0 <= ri < 17 and 0 <= pos < 40
     post: True
     """
     hlib.enter(locals())
     pi = hlib.PARAM["program"]
-    ri, pos = hlib.concrete(ri, 0, 12), hlib.concrete(pos, 0, 39)
+    ri, pos = hlib.concrete(ri, 0, 16), hlib.concrete(pos, 0, 39)
     with hlib.native():
         base = PROGRAMS[pi]
         new = rewrite(base, REWRITES[ri], pos)
